@@ -715,7 +715,46 @@ def _get_lambda_in_stream(
         (node for node in ast.walk(a_module) if isinstance(node, ast.Lambda)),
         None,
     )
+    if lda is not None:
+        # Where the text came from, (row, column) as the tokenizer counts them
+        lda._source_extent = (start_token.start, accumulated_tokens[-1].end)  # type: ignore
     return lda, saw_new_line
+
+
+def _lambda_is_at(
+    lda: ast.Lambda, f: Callable, source: List[str], first_scanned_line: int
+) -> bool:
+    """Can the text `lda` was built from be the source of the function `f`? Where the
+    interpreter records positions (python 3.11 on), everything `f` executes has to sit inside
+    that text. Returns True if we can not tell.
+
+    Args:
+        lda (ast.Lambda): The lambda found by `_get_lambda_in_stream`
+        f (Callable): The function we are looking for the source of
+        source (List[str]): The lines of the source file
+        first_scanned_line (int): Index in `source` of the line the tokenizer started at
+    """
+    extent = getattr(lda, "_source_extent", None)
+    code = getattr(f, "__code__", None)
+    if extent is None or code is None or not hasattr(code, "co_positions"):
+        return True
+
+    def as_bytes(row: int, col: int) -> Tuple[int, int]:
+        "The interpreter counts columns in utf-8 bytes, the tokenizer in characters"
+        line = first_scanned_line + row
+        text = source[line - 1] if line - 1 < len(source) else ""
+        return line, len(text[:col].encode("utf-8"))
+
+    start = as_bytes(*extent[0])
+    end = as_bytes(*extent[1])
+    for p_line, p_end_line, p_col, p_end_col in code.co_positions():
+        if p_line is None or p_end_line is None or p_col is None or p_end_col is None:
+            continue
+        if (p_line, p_col) == (p_end_line, p_end_col):
+            continue
+        if (p_line, p_col) < start or (p_end_line, p_end_col) > end:
+            return False
+    return True
 
 
 def _parse_source_for_lambda(
@@ -822,6 +861,13 @@ def _parse_source_for_lambda(
             )
 
         lda = good_lambdas[0]
+        if not _lambda_is_at(lda, ast_source, source, lambda_line):
+            raise ValueError(
+                f"Unable to tell which of the lambdas around line {lambda_line + 1} is the one "
+                "that was passed"
+                + ("" if caller_name is None else f" to {caller_name}")
+                + " - put it on a line of its own or use a named function."
+            )
 
     return lda
 
